@@ -142,6 +142,7 @@ static void parse_answer(char *s, struct answer *a)
                 case 'e': ac->data = unhex(tok + 2, &ac->dlen, 0); break;
                 case 't': { char *q; ac->a = strtol(tok + 2, &q, 10); ac->b = strtol(q + 1, NULL, 10); break; }
                 case 'x': ac->a = strtol(tok + 2, NULL, 10); break;
+                case 'z': ac->a = strtol(tok + 2, NULL, 10); break;
                 case 'p': { char *q; ac->a = strtol(tok + 2, &q, 10); ac->b = strtol(q + 1, &q, 10); ac->data = unhex(q + 1, &ac->dlen, 0); break; }
                 default: break;
                 }
@@ -216,6 +217,10 @@ static void do_actions(struct answer *a, uint8_t *data, size_t *data_size, size_
                                 data[ac->dlen] = 0;
                                 *data_size = ac->dlen;
                         }
+                        break;
+                case 'z':       /* the handler reports a size of its own through data_size and leaves the buffer alone */
+                        if (data != NULL)
+                                *data_size = (size_t)ac->a;
                         break;
                 case 't': {
                         cat_status r;
